@@ -392,11 +392,24 @@ pub(crate) fn parse_unknown_ifdata(
                     let line_offset = parser.get_line_offset();
                     items.push(GenericIfData::Long(line_offset, num));
                 } else {
-                    // try again, looks like the number is a float instead
+                    // the number does not fit into 32 bits, or it is a float. The value must be preserved
+                    // exactly, so try the wider integer types before falling back to a double
                     parser.undo_get_token();
-                    let floatnum = parser.get_float(context)?; // if this also returns an error, it is neither int nor float, which is a genuine parse error
-                    let line_offset = parser.get_line_offset();
-                    items.push(GenericIfData::Float(line_offset, floatnum));
+                    if let Ok(num) = parser.get_integer::<i64>(context) {
+                        let line_offset = parser.get_line_offset();
+                        items.push(GenericIfData::Int64(line_offset, num));
+                    } else {
+                        parser.undo_get_token();
+                        if let Ok(num) = parser.get_integer::<u64>(context) {
+                            let line_offset = parser.get_line_offset();
+                            items.push(GenericIfData::UInt64(line_offset, num));
+                        } else {
+                            parser.undo_get_token();
+                            let floatnum = parser.get_double(context)?; // if this also returns an error, it is neither int nor float, which is a genuine parse error
+                            let line_offset = parser.get_line_offset();
+                            items.push(GenericIfData::Double(line_offset, floatnum));
+                        }
+                    }
                 }
             }
             A2lTokenType::Begin => {
